@@ -24,3 +24,6 @@ CLAIMS = {
                      "call flags are runtime facts (DESIGN.md section 4). The dynamic product over signer sets and committee sizes ties translator and table to the compiled contracts.",
                 technique="Lean 4: sound abstract interpretation of a regenerated witness-flow IR, decided by kernel evaluation (decide +kernel) for every method x valuation"),
 }
+
+for _p in PROPS.values():
+    _p.setdefault("cover_files", ['contracts/', 'common/'])
